@@ -33,7 +33,8 @@ Proof. exact module_env_frame. Qed.
 Print Assumptions C05_frame.
 
 (* --- statements --- *)
-(* Two runs of the module loop of one (builder, app) — before and after an edit — whose build orders
+(* Two runs of the module loop of one (builder, app) — before and after an edit — started with the same table
+   [dirs] of download directories (C05_same_download_table: related build orders have the same), whose build orders
    are related position by position: the same module names, source directories and downloads; every
    module OUTSIDE a set U (the edited module and its users) is the very same module with the very
    same environment and build deps (C05_frame), reads the table of exported files only at keys
@@ -44,28 +45,33 @@ Print Assumptions C05_frame.
 Theorem C05_statements_frame :
   forall H EV rules merge_opts objdir bn an ms ms' gdeps gdeps' (U : str -> Prop),
   map m_name ms' = map m_name ms ->
-  forall l l' fa fb pre a post,
+  forall dirs l l' fa fb pre a post,
   Forall2 (R gdeps gdeps' U) l l' ->
   fold_left (fun acc mm => rbind acc (fun st0 => module_step H EV rules merge_opts ms gdeps objdir bn an st0 mm)) l
-            (Ok {| ls_entries := []; ls_objects := []; ls_depfiles := []; ls_dldirs := [] |}) = Ok fa ->
+            (Ok {| ls_entries := []; ls_objects := []; ls_depfiles := []; ls_dldirs := dirs |}) = Ok fa ->
   fold_left (fun acc mm => rbind acc (fun st0 => module_step H EV rules merge_opts ms' gdeps' objdir bn an st0 mm)) l'
-            (Ok {| ls_entries := []; ls_objects := []; ls_depfiles := []; ls_dldirs := [] |}) = Ok fb ->
+            (Ok {| ls_entries := []; ls_objects := []; ls_depfiles := []; ls_dldirs := dirs |}) = Ok fb ->
   l = pre ++ a :: post -> ~ U (m_name (fst (fst a))) ->
   exists pre' post' sa0 sa1 sb0 sb1 L O,
     l' = pre' ++ a :: post' /\ length pre' = length pre /\
     fold_left (fun acc mm => rbind acc (fun st0 => module_step H EV rules merge_opts ms gdeps objdir bn an st0 mm)) pre
-              (Ok {| ls_entries := []; ls_objects := []; ls_depfiles := []; ls_dldirs := [] |}) = Ok sa0 /\
+              (Ok {| ls_entries := []; ls_objects := []; ls_depfiles := []; ls_dldirs := dirs |}) = Ok sa0 /\
     module_step H EV rules merge_opts ms gdeps objdir bn an sa0 a = Ok sa1 /\
     fold_left (fun acc mm => rbind acc (fun st0 => module_step H EV rules merge_opts ms' gdeps' objdir bn an st0 mm)) pre'
-              (Ok {| ls_entries := []; ls_objects := []; ls_depfiles := []; ls_dldirs := [] |}) = Ok sb0 /\
+              (Ok {| ls_entries := []; ls_objects := []; ls_depfiles := []; ls_dldirs := dirs |}) = Ok sb0 /\
     module_step H EV rules merge_opts ms' gdeps' objdir bn an sb0 a = Ok sb1 /\
     emits sa0 sa1 L O /\ emits sb0 sb1 L O /\
     forall q, In q L -> has_text fa q /\ has_text fb q.
 Proof.
-  intros H EV rules merge_opts objdir bn an ms ms' gdeps gdeps' U Hn l l' fa fb pre a post.
-  exact (loop_statements_frame H EV rules merge_opts objdir bn an ms ms' gdeps gdeps' U Hn l l' fa fb pre a post).
+  intros H EV rules merge_opts objdir bn an ms ms' gdeps gdeps' U Hn dirs l l' fa fb pre a post.
+  exact (loop_statements_frame H EV rules merge_opts objdir bn an ms ms' gdeps gdeps' U Hn dirs l l' fa fb pre a post).
 Qed.
 Print Assumptions C05_statements_frame.
+
+Theorem C05_same_download_table : forall gdeps gdeps' (U : str -> Prop) l l',
+  Forall2 (R gdeps gdeps' U) l l' -> dldirs_all l' = dldirs_all l.
+Proof. exact R_dldirs_all. Qed.
+Print Assumptions C05_same_download_table.
 
 (* what one step emits does not depend on the statements and objects accumulated so far: the step on
    the state with both lists emptied emits the same, and the real state is the accumulated one
